@@ -11,6 +11,8 @@ def oracle_synth(pid, case, resp):
     """Model-free reading of property pid on one synthetic case and the implementation's answer.
     Returns a list of explanations (empty = the property holds on this case)."""
     tree, given, out = case
+    if resp.get("skipped"):
+        return []
     if "panic" in resp:
         return ["the analysis panicked or did not terminate: " + str(resp["panic"])[:200]] if pid in ("C07", "C11", "C05", "C06", "C08", "C10", "C02") else []
     accepted = bool(resp.get("set_ok")) and bool(resp.get("solved"))
@@ -48,6 +50,11 @@ def oracle_core(pid, case, accepted, set_ok, set_errs, solve_errs, calls, sig=No
             out_msgs.append("bindings %s sit in a set that does not provide their concrete type, yet the set was accepted" % bad_binds)
         if not bad_binds and any(d[0] == "DBindMissing" for d in set_errs):
             out_msgs.append("binding reported as lacking its concrete type although its set provides it")
+    elif pid == "C10" and not set_ok:
+        dup_params = [p["id"] for x in spec.all_sets(tree) for p in x["providers"] if len(set(p["args"])) != len(p["args"])]
+        if not dups and not nested_dups and not cyc and not bad_binds and not dup_params and not item_errs:
+            if not spec.missing(tree, given, out) and not spec.unused_direct(tree, given, out):
+                out_msgs.append("well-formed program rejected at the provider-set stage: %s" % set_errs)
     elif pid in ("C06", "C08", "C10", "C02", "C09") and set_ok and not dups and not nested_dups and not cyc and not bad_binds:
         miss = spec.missing(tree, given, out)
         unused = spec.unused_direct(tree, given, out) if not miss else []
@@ -80,6 +87,9 @@ def oracle_core(pid, case, accepted, set_ok, set_errs, solve_errs, calls, sig=No
             if not miss and not unused and not needs and not accepted:
                 out_msgs.append("well-formed program rejected: %s" % (set_errs + solve_errs + list(inject_errs)))
         elif pid == "C09":
+            dup_params = [p["id"] for x in spec.all_sets(tree) for p in x["providers"] if len(set(p["args"])) != len(p["args"])]
+            if dup_params and accepted:
+                out_msgs.append("providers %s have two parameters (or selected fields) of identical type, yet the program was accepted" % dup_params)
             if sig is not None and not miss and not unused:
                 if needs and accepted:
                     out_msgs.append("injector lacks the error/cleanup result that a needed provider returns (%s) yet was accepted" % needs)
@@ -268,12 +278,94 @@ def eng_funcoutput(pid, tier, wd, known, replay=None):
 
 
 # ---------------------------------------------------------------------------------------------
+# ---------------------------------------------------------------------------------------------
+# Engine: zeroValue over every type kind (regenerated table + table theorem + compile check)
+# ---------------------------------------------------------------------------------------------
+def zero_kinds():
+    basics = [("bool", "ZBool"), ("string", "ZString")] + [(t, "ZNum") for t in
+              ["int", "int8", "int16", "int32", "int64", "uint", "uint8", "uint16", "uint32", "uint64", "uintptr",
+               "float32", "float64", "complex64", "complex128", "byte", "rune"]]
+    comps = [("[3]int", "ZComposite"), ("struct{A int}", "ZComposite"), ("chan int", "ZNil"), ("<-chan int", "ZNil"), ("chan<- int", "ZNil"),
+             ("interface{}", "ZNil"), ("any", "ZNil"), ("error", "ZNil"), ("map[string]int", "ZNil"), ("*int", "ZNil"), ("func()", "ZNil"),
+             ("func(int) string", "ZNil"), ("[]int", "ZNil"), ("unsafe.Pointer", "ZNil")]
+    rows = []
+    for i, (t, zk) in enumerate(basics + comps):
+        rows.append({"decls": "", "type": t, "zk": zk, "named": False})
+        rows.append({"decls": "type N%d %s" % (i, t), "type": "N%d" % i, "zk": zk, "named": True})
+    rows.append({"decls": "type A1 = int", "type": "A1", "zk": "ZNum", "named": False})
+    rows.append({"decls": "type G1[T any] struct{ v T }", "type": "G1[int]", "zk": "ZComposite", "named": True})
+    rows.append({"decls": "type NP *int", "type": "NP", "zk": "ZNil", "named": True})
+    return rows
+
+
+def eng_zerovalue(pid, tier, wd, known, replay=None):
+    rows = zero_kinds()
+    resps = hook([{"op": "zerovalue", "decls": r["decls"], "type": r["type"]} for r in rows])
+    viol, knownl = [], []
+    # 1. table theorem: the model's zero expression for the kind equals what zeroValue printed
+    trs = []
+    for r, o in zip(rows, resps):
+        obs = o["s"] if o["ok"] else "?PANIC"
+        trs.append("(%s, %s, %s)" % (r["zk"], coq_str(r["type"]), coq_str(obs)))
+    f = os.path.join(wd, "ZeroValueTable.v")
+    with open(f, "w") as fh:
+        fh.write("From Coq Require Import List Bool String.\nFrom Wire Require Import Names Model Emit.\nImport ListNotations.\n")
+        fh.write("Definition table : list (zkind * string * string) := [\n" + ";\n".join(trs) + "\n].\n")
+        fh.write("Definition zv (r : zkind * string * string) : string :=\n  fst (zero_value (mkEnv [] [(0, TOpaque (snd (fst r)) [] (fst (fst r)))] []) (mkG [] []) 0).\n")
+        fh.write("Definition bad := Eval vm_compute in map (fun r => snd (fst r)) (filter (fun r => negb (String.eqb (zv r) (snd r))) table).\nPrint bad.\n")
+        fh.write("Theorem zero_value_table : forallb (fun r => String.eqb (zv r) (snd r)) table = true.\nProof. vm_compute. reflexivity. Qed.\nPrint Assumptions zero_value_table.\n")
+    rc, out, err = coqc(f)
+    m = re.search(r"bad\s*=\s*(\[.*?\])\s*:", out, re.S)
+    badtypes = re.findall(r'"([^"]*)"', m.group(1)) if m else []
+    table_ok = rc == 0 and "Closed under the global context" in out
+    # 2. property oracle, model-free: the printed expression must be a well-typed zero value of the type
+    src = ["package z", 'import "unsafe"', "var _ unsafe.Pointer"]
+    seen = set()
+    checks = []
+    for i, (r, o) in enumerate(zip(rows, resps)):
+        if r["decls"] and r["decls"] not in seen:
+            src.append(r["decls"]); seen.add(r["decls"])
+        if o["ok"]:
+            src.append("var _ %s = %s // row %d" % (r["type"], o["s"], i))
+            src.append("var z%d %s\nvar _ = z%d == (%s)" % (i, r["type"], i, o["s"]) if r["zk"] in ("ZBool", "ZNum", "ZString") else "")
+    zd = os.path.join(wd, "zcheck"); os.makedirs(zd, exist_ok=True)
+    open(os.path.join(zd, "go.mod"), "w").write("module z\n\ngo 1.21\n")
+    open(os.path.join(zd, "z.go"), "w").write("\n".join(src) + "\n")
+    b = sh(["go", "vet", "./..."], cwd=zd, env=GOENV, timeout=300)
+    compile_bad = b.returncode != 0
+    kf = {k["key"]: k for k in known if k.get("status") == "finding"}
+    for r, o in zip(rows, resps):
+        if not o["ok"]:
+            key = "zero-value-panic:" + ("named " if r["named"] else "") + re.sub(r"N\d+", "N", r["type"] if not r["named"] else r["decls"].split(" ", 2)[2])
+            if key in kf:
+                knownl.append("zeroValue panics for result type %s (%s)" % (r["type"], kf[key].get("what_fails", "")))
+            else:
+                viol.append(({"property": pid, "kind": "failing-input", "broken": "zeroValue panics", "input": {"decls": r["decls"], "type": r["type"]},
+                              "impl": o, "oracle": ["zeroValue(%s) panicked: %s; an injector with this result type and an error-returning provider crashes wire" % (r["type"], o["s"])],
+                              "key": key, "seed": seed()}, True))
+    panicked = {r["type"] for r, o in zip(rows, resps) if not o["ok"]}
+    unexpected_bad = [t for t in badtypes if t not in panicked]
+    if compile_bad:
+        viol.append(({"property": pid, "kind": "failing-input", "broken": "zero value expressions do not type-check", "input": {"file": "\n".join(src)},
+                      "impl": b.stderr[-1500:], "oracle": ["go vet rejects the zero-value expression wire prints for some result type"], "seed": seed()}, True))
+    if (not table_ok and not panicked) or unexpected_bad:
+        viol.append(({"property": pid, "kind": "no-failing-input-found" if not compile_bad else "failing-input", "broken": "table theorem zero_value_table",
+                      "model_disagrees_on": unexpected_bad or badtypes, "coqc": (out + err)[-800:], "seed": seed()}, compile_bad))
+    return {"name": "zerovalue-table", "evaluations": len(rows), "distinct_nontrivial": len(rows), "exhaustive": True,
+            "samples": [{"type": rows[5]["type"], "zero": resps[5]}], "traces": len(rows), "stats": {"panics": sorted(panicked), "model_disagrees_on": badtypes},
+            "rule": "every predeclared basic type and every composite kind, bare and behind a named type, plus alias, generic instance, named pointer, through the real zeroValue (hook); "
+                    "table theorem re-proved by vm_compute; every printed expression compiled against its type with go vet",
+            "violations": viol, "known": knownl}
+
+
 import engprog
 engprog.props_oracle_core = oracle_core
 eng_prog = engprog.eng_prog
 
 SYNTH_NOTE = "explicit loop bounds of the model (acyc_fuel, solve_fuel) are validated by the correspondence run; the theorems hold for whatever fuel completes the run"
 PROPS = {
+    "C01": {"theorems": ["C01_one_implementation", "C14_disambiguate_fresh"], "engines": [eng_prog, eng_zerovalue],
+            "assumptions": ["partial: Go's full type checker and types.TypeString are not modelled; that the package compiles is established by go build on every accepted program"]},
     "C02": {"theorems": ["C03_failure"], "engines": [eng_synth, eng_prog], "assumptions": [SYNTH_NOTE]},
     "C03": {"theorems": ["C03_failure"], "engines": [eng_prog],
             "assumptions": ["Go semantics of the emitted fragment (short variable declarations, if, calls, closures) is Exec.v's reading of the Go spec, validated by the runtime traces of every generated injector under every single-provider failure"]},
@@ -289,6 +381,8 @@ PROPS = {
             "assumptions": ["result kinds are abstracted to what funcOutput can distinguish (identity with error / func())"]},
     "C10": {"theorems": ["C10_phase_order_independent", "C05_never_picks"], "engines": [eng_synth, eng_prog], "assumptions": [SYNTH_NOTE]},
     "C11": {"theorems": ["C11_colocated"], "engines": [eng_synth, eng_prog], "assumptions": [SYNTH_NOTE, "Go's method-set rule (types.Implements) is go/types' and is not modelled"]},
+    "C14": {"theorems": ["C14_disambiguate_fresh", "C01_one_implementation"], "engines": [eng_prog],
+            "assumptions": ["identifiers are ASCII in the model; non-ASCII names are outside the generated corpus"]},
 }
 
 HOOK_COMMITS = ["fc0854c"]
